@@ -1,6 +1,6 @@
 (* Property C15 — revocation: removed peers and replaced identities are cut off at once.
    Only statements, closed by `exact`, with Print Assumptions. *)
-From WG Require Import Base.Prelude Gen.Constants Revoke.Model Revoke.Spec Revoke.Proofs.
+From WG Require Import Base.Prelude Gen.Constants Revoke.Model Revoke.Spec Revoke.Proofs Revoke.Inflight.
 Local Open Scope N_scope.
 
 (* The constants the model takes from the code. *)
@@ -141,3 +141,52 @@ Fixpoint inv_all (s : state) (evs : list ev) : bool :=
   inv_b s && match evs with [] => true | e :: r => inv_all (fst (step s e)) r end.
 Example C15_invariants_on_scenario : inv_all (init 100) scenario = true.
 Proof. vm_compute. reflexivity. Qed.
+
+(* ---- revocations that land inside the device's own goroutines (Revoke/Inflight.v) ---- *)
+
+(* The handshake worker handles a response in two halves without holding a lock in between: ConsumeMessageResponse, then
+   BeginSymmetricSession + SendKeepalive.  With nothing in between, the two halves are exactly the atomic event. *)
+Theorem C15_response_in_two_halves : forall s idx from ident ridx,
+  step s (EResponse idx from ident ridx) = response_in_two s idx from ident ridx.
+Proof. exact split_response_same. Qed.
+Print Assumptions C15_response_in_two_halves.
+
+(* A removal of the peer, replace_peers or a change of identity between the two halves makes the second half do nothing
+   at all (no keypair, no index entry, no keepalive, no staged packet sent) — in ANY state, for any index. *)
+Theorem C15_revocation_inside_response_worker : forall s pk idx ridx r,
+  revokes s pk r = true ->
+  begin_session (fst (step s r)) pk idx ridx = (fst (step s r), []).
+Proof. exact response_worker_revoked. Qed.
+Print Assumptions C15_revocation_inside_response_worker.
+
+Theorem C15_response_revoked_in_flight : forall id evs idx from ident ridx pk r,
+  let s := reached id evs in
+  consume_response s idx from ident = Some pk ->
+  revokes s pk r = true ->
+  let s1 := fst (step s r) in
+  begin_session s1 pk idx ridx = (s1, []).
+Proof. exact response_revoked_in_flight. Qed.
+Print Assumptions C15_response_revoked_in_flight.
+
+(* The sequential sender reads the peer's running flag once per queued container; Peer.Stop clears it once.  Whatever was
+   queued behind the k containers handled before the stop is given back, not transmitted — for every backlog. *)
+Theorem C15_stopped_peer_backlog_not_transmitted : forall k m q x,
+  In x (skipn k (sender (repeat true k ++ repeat false m) q)) -> x = None.
+Proof. exact stopped_backlog_dropped. Qed.
+Print Assumptions C15_stopped_peer_backlog_not_transmitted.
+
+(* non-vacuity: the response is valid when consumed and WOULD send the staged packet; after each revocation it does not *)
+Example C15_nonvacuous_response_worker :
+  let s := reached 100 [EAddPeer 1 true [1] 0; EAddPeer 2 true [2] 0; EUp; ETun 1 77] in
+  consume_response s 77 1 100 = Some 1 /\
+  snd (begin_session s 1 77 9) = [OTransport 1 9 0] /\
+  snd (begin_session (fst (step s (ESetKey 101))) 1 77 9) = [] /\
+  snd (begin_session (fst (step s (ERemove 1))) 1 77 9) = [] /\
+  snd (begin_session (fst (step s EReplacePeers)) 1 77 9) = [] /\
+  snd (begin_session (fst (step s (ERemove 2))) 1 77 9) = [OTransport 1 9 0].
+Proof. vm_compute. repeat split. Qed.
+
+Example C15_nonvacuous_sender :
+  sender [true; false; false; false] [OTransport 1 9 0; OTransport 1 9 0; OTransport 1 9 0] =
+  [Some (OTransport 1 9 0); None; None].
+Proof. reflexivity. Qed.
